@@ -12,7 +12,8 @@ ID = "C01"
 LEVEL = "exploration"
 RULE = ("episode = store_object(pid, content) through one of 5 data kinds (str path, Path, open rb file, "
         "io.BytesIO, BufferedReader(BytesIO); streams at offset 0/1/mid/end) in a store with one of the 5 "
-        "algorithms x 3 shard shapes, sizes on and around multiples of 4096/8192, followed by a random "
+        "algorithms x 3 shard shapes, sizes on and around multiples of 4096 / 8192 / 65536, 1 MiB and 4-9 MiB objects, an "
+        "eighth of the episodes with the store reached through a symbolic link, followed by a random "
         "history of calls on other pids (same/different content, deletes of sharers, metadata, rejected "
         "calls, delete_if_invalid_object) with retrieve_object(pid) checked against the original bytes "
         "after every step. Oracle: independent hashlib digest / len / byte equality / stream.closed+tell. "
@@ -53,7 +54,14 @@ def episode(rng, scratch, res, idx, force=None):
     d = os.path.join(scratch, f"e{idx}")
     os.makedirs(d)
     try:
-        w = World(d, contents, docs, depth=depth, width=width, algo=algo)
+        store_dir = "store"
+        if rng.random() < 0.12:
+            # the store is reached through a symbolic link (a deployment detail that must not matter)
+            os.makedirs(os.path.join(d, "real"))
+            os.symlink(os.path.join(d, "real"), os.path.join(d, "link"))
+            store_dir = "link/store"
+            res.count("episodes_through_a_symlinked_path")
+        w = World(d, contents, docs, depth=depth, width=width, algo=algo, store_dir=store_dir)
         others = ["q1", "q2", "main2"]
         ops = [{"op": "store", "pid": "main", "content": "main", "kind": kind, "offset": offset}]
         hist_len = rng.randint(2, 10)
@@ -124,6 +132,10 @@ def run_shard(sub_seed, n, shard_idx):
                 for off in (["0", "1", "mid", "end"] if kind in ("file", "bytesio", "bufreader") else [None]):
                     for algo in STORE_ALGOS:
                         sweep.append((algo, 3, 2, 8193, kind, off))
+        if shard_idx == 2:
+            # multi-megabyte objects (hash / copy loops that batch their work)
+            for size, kind in ((4 * 2 ** 20 + 1, "path"), (9 * 2 ** 20 + 7, "bytesio"), (2 ** 22, "file")):
+                sweep.append(("SHA-256", 3, 2, size, kind, "1" if kind != "path" else None))
         if shard_idx == 1:
             for size in boundary_sizes(random.Random(0)):
                 for kind in KINDS:
